@@ -2,4 +2,5 @@ import TinyFlux.Audit.Tool
 import TinyFlux.Props.C12
 import TinyFlux.Props.C12EndToEnd
 import TinyFlux.Props.C12State
+import TinyFlux.Props.C12Witness
 #audit TinyFlux.Props.C12
